@@ -107,6 +107,10 @@ func linOf(t *T, rename func(string) string) *TLin {
 			l.Const.Set(v)
 			return l
 		}
+	case "un":
+		if t.Op == token.SUB && len(t.Args) == 1 {
+			return linOf(t.Args[0], rename).scale(big.NewInt(-1))
+		}
 	case "bin":
 		switch t.Op {
 		case token.ADD:
